@@ -64,6 +64,7 @@ func runC01(c *Ctx) {
 	c.r0116(pk)
 	c.r0117(pk)
 	c.r0118(pk)
+	c.r0119(pk)
 }
 
 // R01.13: traversals of binding patterns reach every nested binding.
@@ -1824,6 +1825,9 @@ func init() {
 	mutant(&Mutant{Name: "c01-assignment-to-parameter-becomes-var", Property: "C01", File: "js/vars.go",
 		Old: "\t\tif v, ok := binaryExpr.X.(*js.Var); ok && v.Decl == js.VariableDecl {\n\t\t\taddDefinition(decl, v, binaryExpr.Y, forward)\n\t\t\treturn true", New: "\t\tif v, ok := binaryExpr.X.(*js.Var); ok && (v.Decl == js.VariableDecl || v.Decl == js.ArgumentDecl) {\n\t\t\taddDefinition(decl, v, binaryExpr.Y, forward)\n\t\t\treturn true",
 		Rule: "R01.18", Construct: "becomes a declaration"})
+	mutant(&Mutant{Name: "c01-pattern-moved-past-initializers", Property: "C01", File: "js/vars.go",
+		Old: "interferes := item.Default != nil && prevDefault", New: "_ = prevDefault\n\t\t\t\t\tinterferes := false",
+		Rule: "R01.19", Construct: "only in front of uninitialised items"})
 	mutant(&Mutant{Name: "c01-laststmt-looks-through-labels", Property: "C01", File: "js/util.go",
 		Old: "\t\treturn lastStmt(block.List[len(block.List)-1])\n\t}\n", New: "\t\treturn lastStmt(block.List[len(block.List)-1])\n\t} else if labelled, ok := stmt.(*js.LabelledStmt); ok {\n\t\treturn lastStmt(labelled.Value)\n\t}\n",
 		Rule: "R01.17", Construct: "lastStmt"})
